@@ -30,6 +30,8 @@ type CallRec struct {
 type Recorder struct {
 	Calls   []CallRec
 	CtxKeys []string
+	// values the callbacks of the schema built with this recorder captured (part of the schema: an execution must not change them)
+	Captured []any
 }
 
 func (r *Recorder) rec(id int, kind string, arg any, ctx z.Ctx) {
@@ -251,6 +253,11 @@ func UserIssue() *z.ZogIssue {
 }
 
 func mkPT(rec *Recorder, pt PTSpec) z.PostTransform {
+	// the sentinel-error idiom: one hand-built issue, created with the schema and returned by every failing call
+	sentinel := &z.ZogIssue{Code: "user_code", Message: "user message"}
+	if rec != nil && pt.Op == "bare_issue" {
+		rec.Captured = append(rec.Captured, sentinel)
+	}
 	return func(ptr any, ctx z.Ctx) error {
 		rec.rec(pt.ID, "pt", ptr, ctx)
 		if ptr == nil {
@@ -296,6 +303,11 @@ func mkPT(rec *Recorder, pt PTSpec) z.PostTransform {
 			return errors.New(pt.S)
 		case "issue":
 			return UserIssue()
+		case "bare_issue":
+			if rec == nil { // (a schema shared between goroutines: no shared mutable object of ours)
+				return &z.ZogIssue{Code: "user_code", Message: "user message"}
+			}
+			return sentinel
 		case "wrap_issue":
 			return fmt.Errorf("delegated check failed: %w", UserIssue())
 		case "noop":
